@@ -16,7 +16,14 @@ import (
 	"strings"
 
 	"github.com/biscuit-auth/biscuit-go/v2"
+	"github.com/biscuit-auth/biscuit-go/v2/datalog"
 )
+
+// isDefaultSymbol asks the library's own table (an empty SymbolTable resolves defaults only).
+func isDefaultSymbol(s string) bool {
+	t := &datalog.SymbolTable{}
+	return t.Sym(s) != nil
+}
 
 func init() {
 	verbs["C07"] = runC07
@@ -30,6 +37,75 @@ type TokenSpec struct {
 	Blocks    []Block
 	RootKeyID *uint32
 	Seal      bool
+	Base      []string // WithSymbols: a caller-supplied base table shared out of band
+}
+
+func symTable(base []string) *datalog.SymbolTable {
+	t := datalog.SymbolTable(append([]string{}, base...))
+	return &t
+}
+
+func unmarshalWith(base []string, data []byte) (*biscuit.Biscuit, error) {
+	if len(base) == 0 {
+		return biscuit.Unmarshal(data)
+	}
+	return (&biscuit.Unmarshaler{Symbols: symTable(base)}).Unmarshal(data)
+}
+
+// allNames: every string the content interns (predicate names, variable names, strings).
+func allNames(blocks []Block) []string {
+	var out []string
+	seen := map[string]bool{}
+	add := func(s string) {
+		if !seen[s] {
+			seen[s] = true
+			out = append(out, s)
+		}
+	}
+	var term func(t Term)
+	term = func(t Term) {
+		switch t.K {
+		case 'v', 's':
+			add(t.N)
+		case 'S':
+			for _, e := range t.Set {
+				term(e)
+			}
+		}
+	}
+	pred := func(p Pred) {
+		add(p.Name)
+		for _, t := range p.Terms {
+			term(t)
+		}
+	}
+	rule := func(rl Rule) {
+		pred(rl.Head)
+		for _, b := range rl.Body {
+			pred(b)
+		}
+		for _, e := range rl.Exprs {
+			for _, o := range e {
+				if o.K == 'v' {
+					term(o.T)
+				}
+			}
+		}
+	}
+	for _, b := range blocks {
+		for _, f := range b.Facts {
+			pred(f)
+		}
+		for _, rl := range b.Rules {
+			rule(rl)
+		}
+		for _, ck := range b.Checks {
+			for _, q := range ck.Queries {
+				rule(q)
+			}
+		}
+	}
+	return out
 }
 
 func buildTokenSpec(spec TokenSpec, rng *Rng) (*biscuit.Biscuit, error) {
@@ -38,9 +114,14 @@ func buildTokenSpec(spec TokenSpec, rng *Rng) (*biscuit.Biscuit, error) {
 	opts := []interface{}{}
 	_ = opts
 	var b biscuit.Builder
-	if spec.RootKeyID != nil {
+	switch {
+	case spec.RootKeyID != nil && len(spec.Base) > 0:
+		b = biscuit.NewBuilder(priv, biscuit.WithRNG(rd), biscuit.WithRootKeyID(*spec.RootKeyID), biscuit.WithSymbols(symTable(spec.Base)))
+	case spec.RootKeyID != nil:
 		b = biscuit.NewBuilder(priv, biscuit.WithRNG(rd), biscuit.WithRootKeyID(*spec.RootKeyID))
-	} else {
+	case len(spec.Base) > 0:
+		b = biscuit.NewBuilder(priv, biscuit.WithRNG(rd), biscuit.WithSymbols(symTable(spec.Base)))
+	default:
 		b = biscuit.NewBuilder(priv, biscuit.WithRNG(rd))
 	}
 	blocks := spec.Blocks
@@ -172,7 +253,17 @@ func execWire(cs *Sx) (res string) {
 	if err != nil {
 		return "bad-case"
 	}
-	tok, err := biscuit.Unmarshal(data)
+	var base []string
+	if bs, ok := cs.field("base"); ok {
+		for _, x := range bs {
+			b, err := unhex(x.Atom)
+			if err != nil {
+				return "bad-case"
+			}
+			base = append(base, string(b))
+		}
+	}
+	tok, err := unmarshalWith(base, data)
 	if err != nil {
 		return rejectClass(err)
 	}
@@ -233,7 +324,15 @@ func wireCaseSx(data []byte, spec TokenSpec) string {
 		proof = "final"
 	}
 	expect := "proof=" + proof + " blocks=" + blocksExpectSx(spec.Blocks)
-	return "(case (bytes " + hx(data) + ") (expect " + hxs(expect) + "))"
+	base := ""
+	if len(spec.Base) > 0 {
+		parts := make([]string, len(spec.Base))
+		for i, b := range spec.Base {
+			parts[i] = hxs(b)
+		}
+		base = " (base " + strings.Join(parts, " ") + ")"
+	}
+	return "(case (bytes " + hx(data) + ") (expect " + hxs(expect) + ")" + base + ")"
 }
 
 // ---------- CHAIN ----------
@@ -458,6 +557,22 @@ func runC07(c *Ctx) {
 		for j := 0; j < nb; j++ {
 			spec.Blocks = append(spec.Blocks, g.richBlock())
 		}
+		if r.Chance(1, 5) {
+			// a base table supplied by the caller: some of the names the content uses
+			// (in shuffled order) plus one it does not use; never default symbols
+			names := permuted(r, allNames(spec.Blocks))
+			for _, nm := range names {
+				if len(spec.Base) < 4 && !isDefaultSymbol(nm) && r.Chance(1, 2) {
+					spec.Base = append(spec.Base, nm)
+				}
+			}
+			if r.Chance(1, 2) {
+				spec.Base = append(spec.Base, "unused-base-symbol")
+			}
+			if len(spec.Base) > 0 {
+				c.Count("with-base-symbols")
+			}
+		}
 		tok, err := buildTokenSpec(spec, r.Fork())
 		if err != nil {
 			// builders may refuse content (e.g. empty set): not a wire case
@@ -486,7 +601,7 @@ func runC07(c *Ctx) {
 			continue
 		}
 		// implementation-only panel: before vs after the wire
-		tok2, err := biscuit.Unmarshal(data)
+		tok2, err := unmarshalWith(spec.Base, data)
 		if err != nil {
 			continue
 		}
